@@ -18,6 +18,30 @@ CHECKS = {
     ),
 }
 
+CHECKS.update({
+    "C06": (
+        "chk-object", MC,
+        "explicit-state BFS to fixpoint (stateright) with the real Object inside the state, lock-step with a Vec reference model, under three harness-chosen hash functions",
+        "Every operation history over a small key universe that stays within the length bound is covered (the search runs to fixpoint, so history length is unbounded): each transition executes the real operation and the ordered-list model, compares the operation's result, then compares all key queries for every key of the universe and an absent key with linear scans and checks the index invariant through hook H1. Pumped non-initial states (24-48 distinct keys, rehash cycles, tombstones) are explored to a depth bound. The index's hash function is owned by the harness (real ahash with fixed seeds, constant, two-class), so collisions are forced rather than left to a random seed.",
+        "Trusts hashbrown's RawTable, the reference model R-obj (DESIGN A.4, the documented semantics incl. remove_unique removing all duplicates on error), stateright. Key universe <= 4 keys and length <= 6 in the fixpoint runs.",
+        "4/C06",
+    ),
+    "C14": (
+        "chk-object", MC,
+        "explicit-state BFS over operation histories (shared with C06) comparing every reachable object with canonically rebuilt ones + exhaustive pairs/triples of a closed value universe",
+        "In every reachable state of the C06 search (three hash modes, so different index internals) the history-built object is compared by ==, cmp, partial_cmp and hash with from_vec / from_iter / clone builds of the same entry list; with transitivity this covers all pairs of histories with equal entry lists. The order laws are checked on all ordered pairs and all triples of every value up to a node bound.",
+        "Law universe: all values of <= 2 (quick) / <= 3 (thorough) nodes over 7 leaves and 2 keys. Hash equality is probed with std's fixed-key SipHash.",
+        "4/C14",
+    ),
+    "C15": (
+        "chk-object", EX,
+        "bounded-exhaustive enumeration of all ordered pairs of all values up to a node bound, against recursively sorted normal forms",
+        "All ordered pairs of all values with <= 4 (quick, 1 536 values) / <= 5 (thorough, 20 644 values) nodes over leaves {0,1} and keys {a,b}: every multiplicity pattern of duplicate keys with up to 3 (4) entries, nesting, arrays. unordered_eq, the Unordered wrapper and as_unordered are compared with equality of sorted normal forms; reflexivity, symmetry, transitivity (all triples of the <= 3-node universe) and implication by == are checked.",
+        "Trusts the normal-form reference (multiset of entries). Values beyond the node bound and other leaf kinds are outside.",
+        "4/C15",
+    ),
+})
+
 NOT_YET = {}
 
 props = [json.loads(l) for l in open(f"{root}/properties.jsonl")]
